@@ -473,6 +473,73 @@ def pubkey_case(env, case, st):
     st.sample({"x": hx(xb), "y": hx(yb), "prefixes": 256, "lengths": "0..80"})
 
 
+def coord_chain_xs():
+    """x coordinates from the first-difference alphabet of the 'x < p' comparison: for every limb of the 26/52/32/64-bit
+    partitions (lowest, highest, middle bit) the value that agrees with p above the deciding bit; ALL deciding positions are kept
+    (dense) until two on-curve and one off-curve x per limb width/limb are found"""
+    lt, ge = cmp_chain(P, dense=True)
+    out, seen = [], set()
+    for w in (26, 52, 32, 64):
+        i = 0
+        while w * i < 256:
+            lo, hi = w * i, min(w * (i + 1), 256)
+            on = off = 0
+            for v in lt:
+                b = (v ^ P).bit_length() - 1       # deciding position
+                if not (lo <= b < hi):
+                    continue
+                oc = SECP.lift_x(v) is not None
+                if (oc and on < 2) or (not oc and off < 1):
+                    on += oc
+                    off += (not oc)
+                    if v not in seen:
+                        seen.add(v)
+                        out.append(v)
+            i += 1
+    return out + [v for v in ge if v not in seen]
+
+
+def coord_chain_case(env, x, st):
+    """every key format for one x of the comparison-chain alphabet; model decides"""
+    L = env.L
+    pt = SECP.lift_x(x) if x < P else None
+    ys = [pt[1], P - pt[1]] if pt else [1, 2]
+    inputs = [bytes([2]) + b32(x), bytes([3]) + b32(x)]
+    for y in ys:
+        for pre in (4, 6, 7):
+            inputs.append(bytes([pre]) + b32(x) + b32(y))
+    for s in inputs:
+        pk = buf(b"\x11" * 64)
+        ret = L.ec_pubkey_parse(L.ctx, pk, exact(s), len(s))
+        st.calls += 1
+        mp = SECP.parse_pubkey(s)
+        if (ret == 1) != (mp is not None):
+            st.fail("ec_pubkey_parse returned %d, model says %s (x differs from p first at bit %d)" % (ret, "accept" if mp else "reject", (x ^ P).bit_length() - 1),
+                    {"cfg": L.config, "input": hx(s)})
+            continue
+        st.count("chain-%s" % ("accept" if mp else "reject"))
+        if mp:
+            st.nt(s)
+            comp = pubkey_ser(L, pk, True)
+            if comp != SECP.ser_compressed(mp) or (s[0] in (2, 3) and comp != s):
+                st.fail("round trip of a key whose x is next to p differs", {"cfg": L.config, "input": hx(s), "comp": hx(comp)})
+    xo = buf(b"\x11" * 64)
+    ret = L.xonly_pubkey_parse(L.ctx, xo, b32(x))
+    st.calls += 1
+    if (ret == 1) != (pt is not None):
+        st.fail("xonly_pubkey_parse returned %d, model says %s (x differs from p first at bit %d)" % (ret, "accept" if pt else "reject", (x ^ P).bit_length() - 1), {"cfg": L.config, "x": hex(x)})
+    elif pt:
+        o = buf(32)
+        L.xonly_pubkey_serialize(L.ctx, o, xo)
+        if o.raw != b32(x):
+            st.fail("x-only round trip differs", {"cfg": L.config, "x": hex(x)})
+    if L.illegal or L.errors:
+        st.fail("callback fired on legal input", {"cfg": L.config, "x": hex(x)})
+        L.cb_reset()
+    if pt:
+        st.sample({"x": hex(x), "deciding_bit": (x ^ P).bit_length() - 1, "on_curve": True})
+
+
 def pubkey_serialize_buffers(env, case, st):
     """serialize with every buffer length 0..66: too short => illegal callback and 0"""
     L = env.L
@@ -620,6 +687,8 @@ def main():
                   rule="parse_compact / recoverable parse (recid -1..4) of every (r,s) in SC^2 plus valid signatures re-encoded as s+n / r+n (small s; R.x >= n); rejected objects must not verify for the key that validates the reduced pair")
         run_phase(run, "%s/pubkey" % cfg, pubkey_case, pk_payloads(), setup=setup(cfg),
                   rule="ec_pubkey_parse over every prefix byte 0..255 x lengths {0,1,32,33,34,64,65,66} (all 0..80 for prefixes 2,3,4,6,7) x payloads (on-curve both parities, y+1, x+p / y+p re-encodings, off-curve, 0, p-1, p, p+1, 2^256-1); x-only parser; serialise/parse identities, hybrid -> uncompressed")
+        run_phase(run, "%s/coordinate-comparison-chain" % cfg, coord_chain_case, coord_chain_xs(), setup=setup(cfg),
+                  rule="x coordinates that agree with p above a deciding bit, differ there and are all-ones below (x < p) / all-zero below (x >= p): for every limb of the 26-, 52-, 32- and 64-bit partitions two on-curve and one off-curve x; compressed, uncompressed, hybrid and x-only parsers against the model, round trip")
         run_phase(run, "%s/pubkey-serialize-buffers" % cfg, pubkey_serialize_buffers, [1, 2, N - 1], setup=setup(cfg),
                   rule="ec_pubkey_serialize into every buffer length 0..66 for both formats")
         if run.out_of_time():
